@@ -28,8 +28,10 @@ TraceInit == /\ tid \in 1..Len(Traces) /\ l = 1
              /\ InitRest
 
 (* the logged snapshot equals the specification's shared state *)
-SnapPre  == Ev.s.ninq = Len(inq)  /\ Ev.s.nout = Len(outq)  /\ Ev.s.np = nProcs  /\ Ev.s.nex = Len(excs)  /\ Ev.s.st = stopped
-SnapPost == Ev.s.ninq = Len(inq') /\ Ev.s.nout = Len(outq') /\ Ev.s.np = nProcs' /\ Ev.s.nex = Len(excs') /\ Ev.s.st = stopped'
+\* np / nex / st are read from private attributes of the Multiprocessor; a logged -1 means "not observable in this build of the
+\* code" (the attribute does not exist) and is then not compared - the queue lengths always are.
+SnapPre  == Ev.s.ninq = Len(inq)  /\ Ev.s.nout = Len(outq)  /\ Ev.s.np \in {-1, nProcs}  /\ Ev.s.nex \in {-1, Len(excs)}  /\ Ev.s.st \in {-1, IF stopped THEN 1 ELSE 0}
+SnapPost == Ev.s.ninq = Len(inq') /\ Ev.s.nout = Len(outq') /\ Ev.s.np \in {-1, nProcs'} /\ Ev.s.nex \in {-1, Len(excs')} /\ Ev.s.st \in {-1, IF stopped' THEN 1 ELSE 0}
 
 TrEvent ==
   \/ Ev.r = "main" /\ Ev.e = "start"   /\ SnapPre /\ MainStart
